@@ -133,7 +133,3 @@ example : outcome (evalIntegerInfix "LEFTSHIFT" 1 (-1)) (initState {}) = .ok (er
 example : Reachable (initState {}) := ⟨{}, [], rfl⟩
 
 end Grol.E
-
-#print axioms Grol.E.C07.statement
-#print axioms Grol.E.C07.holds
-#print axioms Grol.E.C07.inv_runInput
